@@ -69,6 +69,9 @@ pub enum Cmd {
     /// WebSocket frame or an HTTP body can contain): the text after the line feed must never be executed,
     /// here or on another node
     SetWithLineFeed,
+    /// the same with the line feed inside the *key* (`set ka\ncreate-db tok`): what follows it must not run as a command
+    /// of its own on the nodes the write is replicated to
+    SetKeyWithLineFeed,
     /// `election <neither win nor candidate> <name>` (the parser reads it as "a node is alive"), the name followed
     /// by a line feed and an administrative replication command: like every election command it is for
     /// administrators (the nodes), and the text after the line feed must never be executed on any node
@@ -77,12 +80,12 @@ pub enum Cmd {
     ResolveNamingOtherDb,
 }
 
-pub const ALL_CMDS: [Cmd; 38] = [
+pub const ALL_CMDS: [Cmd; 39] = [
     Cmd::Get, Cmd::GetSafe, Cmd::Set, Cmd::SetSafe, Cmd::Remove, Cmd::Increment, Cmd::Watch, Cmd::Keys, Cmd::Arbiter, Cmd::Resolve,
     Cmd::CreateDb, Cmd::Snapshot, Cmd::SnapshotNamed, Cmd::CreateUser, Cmd::SetPermissions, Cmd::ClusterState, Cmd::MetricsState,
     Cmd::DebugListDbs, Cmd::DebugPendingOps, Cmd::Join, Cmd::Leave, Cmd::SetPrimary, Cmd::SetSecoundary, Cmd::ElectionWin,
     Cmd::ElectionCandidate, Cmd::Replicate, Cmd::ReplicateRemove, Cmd::ReplicateIncrement, Cmd::ReplicateSnapshot, Cmd::ReplicateJoin,
-    Cmd::ReplicateLeave, Cmd::ReplicateSince, Cmd::Ack, Cmd::RpSet, Cmd::ListCommands, Cmd::SetWithLineFeed, Cmd::ElectionOtherWithLineFeed, Cmd::ResolveNamingOtherDb,
+    Cmd::ReplicateLeave, Cmd::ReplicateSince, Cmd::Ack, Cmd::RpSet, Cmd::ListCommands, Cmd::SetWithLineFeed, Cmd::ElectionOtherWithLineFeed, Cmd::ResolveNamingOtherDb, Cmd::SetKeyWithLineFeed,
 ];
 
 #[derive(Clone, Debug, Serialize, Deserialize, PartialEq)]
@@ -268,6 +271,7 @@ fn line(cmd: &Cmd, key: &str, uniq: u32) -> String {
         Cmd::ListCommands => "list-commands".to_string(),
         Cmd::SetWithLineFeed => format!("set {} lf{}\nreplicate d $$sec 99 injected{}", if key.starts_with("$$") { "ka" } else { key }, uniq, uniq),
         Cmd::ResolveNamingOtherDb => format!("resolve 78 d2 {} 3 forcedother{}", key, uniq),
+        Cmd::SetKeyWithLineFeed => format!("set {}\ncreate-db injtok{}", if key.starts_with("$$") { "ka" } else { key }, uniq),
         Cmd::ElectionOtherWithLineFeed => format!("election alive 10.9.9.9:3014\nreplicate d $$sec 99 injected{}", uniq),
     }
 }
@@ -286,7 +290,7 @@ enum Need {
 fn need(cmd: &Cmd) -> Need {
     match cmd {
         Cmd::Get | Cmd::GetSafe | Cmd::Watch => Need::Data('r'),
-        Cmd::Set | Cmd::SetSafe | Cmd::Resolve | Cmd::SetWithLineFeed | Cmd::ResolveNamingOtherDb => Need::Data('w'),
+        Cmd::Set | Cmd::SetSafe | Cmd::Resolve | Cmd::SetWithLineFeed | Cmd::SetKeyWithLineFeed | Cmd::ResolveNamingOtherDb => Need::Data('w'),
         Cmd::Increment => Need::Data('i'),
         Cmd::Remove => Need::Data('x'),
         Cmd::Keys => Need::Selected,
@@ -323,7 +327,10 @@ fn perm_allows(perms: &Option<String>, kind: char, key: &str) -> bool {
 /// (None = none, Some(None) = database token, Some(Some(user)) = user token) and this permission list of the
 /// user, run `cmd` on `key`?
 fn model_allows(cmd: &Cmd, key: &str, is_admin: bool, selected: &Option<Option<String>>, perms: &Option<String>) -> bool {
-    let key = if *cmd == Cmd::SetWithLineFeed && key.starts_with("$$") { "ka" } else { key };
+    let key = if matches!(cmd, Cmd::SetWithLineFeed | Cmd::SetKeyWithLineFeed) && key.starts_with("$$") { "ka" } else { key };
+    // (the key the node sees is everything up to the first blank)
+    let lf_key = format!("{}\ncreate-db", key);
+    let key = if *cmd == Cmd::SetKeyWithLineFeed { lf_key.as_str() } else { key };
     let secure = key.starts_with("$$");
     let keyed = !matches!(cmd, Cmd::Keys | Cmd::Arbiter);
     let needs_selection_too = matches!(cmd, Cmd::CreateUser | Cmd::SetPermissions | Cmd::Snapshot);
@@ -455,7 +462,7 @@ fn run_wire_sessions(w: &World, own: &Arc<Databases>, prog: &Program, perms: &Op
             if allowed && (disruptive(cmd) || matches!(cmd, Cmd::SetPermissions)) {
                 continue;
             }
-            if matches!(cmd, Cmd::SetWithLineFeed | Cmd::ElectionOtherWithLineFeed) && ws.transport == Transport::Tcp {
+            if matches!(cmd, Cmd::SetWithLineFeed | Cmd::SetKeyWithLineFeed | Cmd::ElectionOtherWithLineFeed) && ws.transport == Transport::Tcp {
                 // over TCP a line feed ends the command: that is two commands, not one value
                 continue;
             }
@@ -769,11 +776,23 @@ fn execute(prog: Program, cluster: bool) -> Outcome {
                     }
                     let secure_of = |d: &Arc<Databases>| dump_node(d).get("d").and_then(|(_, keys)| keys.get("$$sec").cloned());
                     let sec_before = (secure_of(&own), other.as_ref().map(|d| secure_of(d)));
+                    let names_of = |d: &Arc<Databases>| dump_node(d).keys().cloned().collect::<Vec<String>>();
+                    let dbs_before = (names_of(&own), other.as_ref().map(|d| names_of(d)));
                     let r = s.exec(&l);
                     if cluster {
                         w.settle(100, 2_000);
                     }
                     out.allowed_checked += 1;
+                    if *cmd == Cmd::SetKeyWithLineFeed && !is_admin {
+                        let dbs_after = (names_of(&own), other.as_ref().map(|d| names_of(d)));
+                        if dbs_before != dbs_after {
+                            out.violations.push(Violation::new(
+                                "injected-command-executed",
+                                format!("{:?}:{}{}", cmd, cred, site),
+                                format!("step #{} {:?} with credential {} is a permitted write of one key, but the databases went {:?} -> {:?} (this node, other node): the text after the line feed was executed as a command", i, l, cred, dbs_before, dbs_after),
+                            ));
+                        }
+                    }
                     if *cmd == Cmd::SetWithLineFeed && !is_admin {
                         let sec_after = (secure_of(&own), other.as_ref().map(|d| secure_of(d)));
                         if sec_before != sec_after {
